@@ -344,9 +344,50 @@ def with_parents(model, pool, limit=16):
     return out[:limit]
 
 
+_primed = False
+
+
+def prime_plain():
+    """Once per process, BEFORE any isolating variant is touched: the same range operations on the ordinary list
+    schema, whose node types have the same names but are not isolating (a process that also edits ordinary documents).
+    Answers remembered per type NAME would then be wrong for the variants."""
+    global _primed
+    if _primed:
+        return
+    _primed = True
+    c = adapters.ctx("list")
+    d = {"type": "doc", "attrs": {"meta": None}, "content": [
+        {"type": "blockquote", "content": [{"type": "paragraph", "content": [{"type": "text", "text": "ab"}]}]},
+        {"type": "bullet_list", "content": [{"type": "list_item", "content": [
+            {"type": "paragraph", "content": [{"type": "text", "text": "cd"}]}]}]},
+        {"type": "ordered_list", "attrs": {"order": 1}, "content": [{"type": "list_item", "content": [{"type": "paragraph"}]}]}]}
+    node = c.node(d)
+    n = node.content.size
+    hr = adapters.Slice(adapters.Fragment.from_(c.schema.nodes["horizontal_rule"].create()), 0, 0)
+    for a in range(n + 1):
+        for b in range(a, n + 1):
+            for fn in (lambda tr: tr.delete_range(a, b), lambda tr: tr.replace_range(a, b, hr),
+                       lambda tr: tr.replace(a, b, hr)):
+                try:
+                    fn(adapters.Transform(node))
+                except Exception:  # noqa: BLE001
+                    pass
+    for p in range(n + 1):
+        for q in range(p, n + 1):
+            try:
+                rng = node.resolve(p).block_range(node.resolve(q))
+                if rng is not None:
+                    structure.lift_target(rng)
+                structure.can_split(node, p, 1)
+                structure.can_split(node, p, 2)
+            except Exception:  # noqa: BLE001
+                pass
+
+
 def run_unit(u):
     res = engine.UnitResult(PROPERTY_ID)
     engine.arm()
+    prime_plain()
     if u.get("kind") == "max_open":
         check_max_open(res)
         res.scopes.append({"unit": "max_open", "completed": True})
@@ -370,6 +411,7 @@ def run_unit(u):
 
 
 def replay(case):
+    prime_plain()
     res = engine.UnitResult(PROPERTY_ID)
     if "fragment" in case:
         check_max_open(res)
